@@ -11,6 +11,42 @@
 struct gr_ghost { int init_calls; size_t init_num; econf_file *init_kf; };
 extern struct gr_ghost gr;
 
+#ifdef PART_NEWKF
+/* econf_newKeyFile (lib/libeconf.c): the constructor with pre-initialised slots.  initialize() is
+ * replaced by a logging contract that REQUIRES the slots to be initialised in ascending order, each
+ * inside the array just allocated (its own effect: job initialize). */
+#include "defines.h"
+void initialize(econf_file *key_file, size_t num)
+__CPROVER_requires(key_file != NULL && key_file->file_entry != NULL && key_file->alloc_length == KEY_FILE_DEFAULT_LENGTH)
+__CPROVER_requires(num == (size_t)gr.init_calls && num < KEY_FILE_DEFAULT_LENGTH)
+__CPROVER_requires(gr.init_calls == 0 || gr.init_kf == key_file)
+__CPROVER_assigns(gr)
+__CPROVER_ensures(gr.init_calls == __CPROVER_old(gr.init_calls) + 1 && gr.init_num == num && gr.init_kf == key_file)
+;
+
+econf_err econf_newKeyFile(econf_file **result, char delimiter, char comment)
+__CPROVER_requires(__CPROVER_is_fresh(result, sizeof(*result)))
+__CPROVER_requires(gr.init_calls == 0)
+__CPROVER_assigns(*result, gr)
+__CPROVER_ensures(__CPROVER_return_value == ECONF_SUCCESS || __CPROVER_return_value == ECONF_NOMEM)
+/* C11: the new object is the empty configuration with KEY_FILE_DEFAULT_LENGTH spare slots, every one
+ * of them initialised exactly once; it carries the given delimiter and comment character, no
+ * options, no layers, no sections */
+__CPROVER_ensures(__CPROVER_return_value == ECONF_SUCCESS ==>
+                  (__CPROVER_is_fresh(*result, sizeof(econf_file)) &&
+                   (*result)->length == 0 && (*result)->alloc_length == KEY_FILE_DEFAULT_LENGTH &&
+                   (*result)->delimiter == delimiter && (*result)->comment == comment &&
+                   !(*result)->join_same_entries && !(*result)->python_style &&
+                   (*result)->parse_dirs == NULL && (*result)->parse_dirs_count == 0 &&
+                   (*result)->conf_dirs == NULL && (*result)->conf_count == 0 &&
+                   (*result)->groups == NULL && (*result)->group_count == 0 &&
+                   (*result)->path == NULL && (*result)->root_prefix == NULL && !(*result)->on_merge_delete &&
+                   gr.init_calls == KEY_FILE_DEFAULT_LENGTH && gr.init_kf == *result))
+__CPROVER_ensures(__CPROVER_return_value == ECONF_SUCCESS ==>
+                  __CPROVER_is_fresh((*result)->file_entry, KEY_FILE_DEFAULT_LENGTH * sizeof(struct file_entry)))
+;
+#endif
+
 #ifdef PART_APPEND
 /* the new slot is initialised by initialize() (its effect is checked by the api.* jobs) */
 void initialize(econf_file *key_file, size_t num)
